@@ -1,6 +1,6 @@
 (* C01 - A successful dump is a structurally sound minidump.  Property theorems only. *)
 From Coq Require Import List NArith Arith.
-From MDW Require Import Bytes MemWriter Writer MiniDump MiniDumpProofs SoundAbs SoundBridge GenTypes Generated PlanProofs.
+From MDW Require Import Bytes MemWriter Writer Hoare MiniDump MiniDumpProofs SoundAbs SoundBridge GenTypes Generated PlanProofs Image ImageProofs ImageDirProofs.
 Import ListNotations.
 
 (* (1) The builder model: the reduced whole dump (header slot, thread list with stacks, contexts and
@@ -57,3 +57,29 @@ Print Assumptions C01_plan_entry_count.
 Theorem C01_plan_types_unique : nodup_b plan_types = true.
 Proof. exact plan_types_unique. Qed.
 Print Assumptions C01_plan_types_unique.
+
+(* (4) The WHOLE image: all section writers (thread list, module list, application memory, memory list, exception,
+   system information, memory-information list, the copied files, linker data, thread names, open descriptors,
+   soft-error stream) as programs on the writer monad, run in the order of the stream plan regenerated from the
+   source, with the directory patched after each stream.  For EVERY content the build succeeds; the ghost object map
+   tiles the image and every stored location designates an object of its kind and exact length (Inv); every directory
+   entry is unused or carries the planned stream type and spans exactly the stream's header/array objects; the header
+   and directory objects sit at 0 and 32.  (The check compares this model's image byte for byte with real images.) *)
+Theorem C01_whole_image_sound : forall c,
+  exists dirs s', image c empty_wst = Ok (dirs, s') /\ Inv s' /\
+    Forall2 (fun d ty => stream_ok ty (w_objs s') d) dirs plan_types /\
+    In {| o_kind := KHeader; o_rva := 0; o_len := HEADER_SZ |} (w_objs s') /\
+    In {| o_kind := KDirectory; o_rva := HEADER_SZ; o_len := DIRENT_SZ * NUM_DIRS |} (w_objs s').
+Proof. exact image_sound. Qed.
+Print Assumptions C01_whole_image_sound.
+
+(* (5) ... and in the final image (below 4 GiB, the reach of the format's 32-bit offsets) the first 32 bytes are the header
+   record (signature, version, the declared stream count, directory position 32) and the next 12 * 18 bytes are exactly
+   the encodings of those entries, in order: nothing written later disturbs header or directory. *)
+Theorem C01_whole_image_directory : forall c dirs s',
+  image c empty_wst = Ok (dirs, s') -> small (blen s') ->
+  slice (w_buf s') 0 HEADER_SZ = enc_header (ic_time c) (N.of_nat HEADER_SZ) /\
+  slice (w_buf s') HEADER_SZ (DIRENT_SZ * NUM_DIRS) = concat (map enc_dirent dirs) /\
+  length dirs = NUM_DIRS.
+Proof. exact image_directory. Qed.
+Print Assumptions C01_whole_image_directory.
